@@ -78,6 +78,18 @@ REG = {
             "the same weight; seeded wrappers must give identical x / class for every request form; p=1 must mix (bounded "
             "statistical oracle, false-alarm < 1e-30); sample-level cutmix must be refused",
             "DESIGN.md §3 C11", TRUST),
+    "C12": ("exploration", "Hypothesis-generated sampler configurations; structural oracle over all ranks of one epoch (interleaving vs. the W=1 draw)",
+            "DistributedSampler (shuffle, drop_last, num_repeats), ClassBalancedSampler, WeightedSampler for N 1-40 (incl. N<W), W 1-8: "
+            "equal per-rank lengths == len(sampler); interleaved ranks equal the W=1 draw of the same (seed, epoch) up to trailing "
+            "cut / cyclic wrap-around; reproducible for equal (seed, epoch); set_epoch changes shuffled draws (three-epoch rule); "
+            "repeated augmentation = runs of num_repeats with pairwise different values (also kappadata RandomSampler)",
+            "DESIGN.md §3 C12", TRUST),
+    "C13": ("exploration", "Hypothesis-generated class layouts / splits / weights; validity predicates over the union of all ranks",
+            "class-balanced: exactly samples_per_class per class over all ranks minus effective_length%W trailing entries, per-class "
+            "reuse differs by <=1; semi: strict num_labeled/num_unlabeled alternation, every |pool|-block is a permutation of the "
+            "pool, documented effective_length for all three modes, equal per-rank lengths, different streams per rank; weighted: "
+            "no index twice per epoch, zero-weight indices never drawn, documented length; all indices valid",
+            "DESIGN.md §3 C13", TRUST),
     "C14": ("exploration", "Hypothesis-generated image sizes/parameters: decode-and-verify on recorded context, coordinate-encoded image/mask pairs, inverse round-trips",
             "10 facets: random / two-random / random-resized / simple-random crop (tensor + PIL; output size, recorded box inside the "
             "padded input, torchvision functional re-application reproduces the output, recorded overlap), random erasing (one "
